@@ -18,6 +18,8 @@ type pendingOp struct {
 	author  int
 	rec     *consensusproto.RawRecord
 	newKey  crypto.SymKey    // read key introduced by this record (rotation), nil otherwise
+	newKeys []crypto.SymKey  // composed records: the read keys of its rotations, in content order (newKey = the last)
+	shape   string           // composed records: the kinds of its contents
 	invKeys []crypto.PrivKey // private keys of the invites created by this record, in content order
 }
 
